@@ -74,6 +74,23 @@ Theorem C11_structure_generic : forall (T : Type) (K : ops T) L W moves rewards 
 Proof. exact BoardQ.structure_generic. Qed.
 Print Assumptions C11_structure_generic.
 
+(** The last clause of C11 ("each game is then either solved or reported as having no solution") is NOT a
+    theorem: the solver's reward loop also iterates two cross-objective diagnostics, and on generated
+    boards these can grow without bound, so the loop never meets its stopping criterion. Witness: the
+    1x3 board [0|<-( )] [0|v(X)] [3|<>( )], game A, pruned solve. Here: the description is a proper C11
+    board, the reachability half ends after 7 sweeps with value 9/10 (exactly what the implementation
+    reports), and 400 reward sweeps do not suffice. Missing for a full refutation: the same for every
+    fuel (an invariant of the sweep: "rewards under min reach" of the light of tile (0,2) grows by 3 per
+    sweep). The implementation does not finish on this input within 60 s (harness/props/c11.py, known
+    finding). *)
+Theorem C11_solve_diverges_partial :
+  C11_board 1 3 w_moves w_rewards /\
+  (exists r, solve_reach_fuel qops 400 w_game true = Ok r /\ snd r = 7 /\
+             (reach (getn qops (fst (fst r)) 0) == 9 # 10)%Q) /\
+  solve_fuel qops 400 w_game true = OutOfFuel.
+Proof. exact BoardQ.w_game_diverges_400. Qed.
+Print Assumptions C11_solve_diverges_partial.
+
 (* non-vacuity: a 2x2 board with every arrow code, a loose tile and rewards meets the hypotheses,
    and the validation really evaluates to Ok on it (21 + 30 + 42 states) *)
 Example C11_example :
